@@ -11,6 +11,7 @@ From Coq Require Import List NArith ZArith Bool Lia.
 From PegtlV Require Import Base Decode Grammar Engine EngineFacts AtomFacts Mono Spec ExactSound Integer IntegerSpec.
 From PegtlV Require IntegerFacts.
 From PegtlV Require Import Regex RegexIncl RegexQuot Rfc3986 UriModel UriProof.
+From PegtlV.gen Require Import Uri_gen.
 Import ListNotations.
 Local Open Scope N_scope.
 
@@ -82,6 +83,9 @@ Definition TotE (r : rid) : Prop := forall d c, bytes_ok (rest c) -> exists v, o
 Definition CmpE (r : rid) (R K : re) : Prop :=
   forall d c, bytes_ok (rest c) -> matches (Cat R K) (rest c) -> exists c', ov (ev d r c) = Some (Some c') /\ matches K (rest c').
 
+Definition FolE (r : rid) (P : list byte -> Prop) : Prop :=
+  forall d c c' evs, bytes_ok (rest c) -> ev d r c = Res Ok c' evs -> P (rest c').
+
 Lemma ok_bytes d r c c' evs : ev d r c = Res Ok c' evs -> bytes_ok (rest c) -> bytes_ok (rest c').
 Proof. intros E Hb. pose proof (Hgood d r c) as Gd. rewrite E in Gd. simpl in Gd. eapply bytes_ok_adv; eauto. Qed.
 Lemma fail_req d r c c' evs : dM d = true -> ev d r c = Res Fail c' evs -> c' = c.
@@ -125,7 +129,8 @@ Fixpoint SorOK (rs : list rid) (Rs : list re) (K : re) : Prop :=
   | [], [] => True
   | r :: rs', R :: Rs' =>
       CmpE r R K /\ TotE r /\ SoundE r R /\
-      (forall w t, bytes_ok (w ++ t) -> matches R w -> matches (Cat (fa Rs') K) (w ++ t) -> matches K t) /\
+      (exists P, FolE r P /\
+         forall w t, bytes_ok (w ++ t) -> matches R w -> P t -> matches (Cat (fa Rs') K) (w ++ t) -> matches K t) /\
       SorOK rs' Rs' K
   | _, _ => False
   end.
@@ -135,7 +140,7 @@ Lemma sor_any_cmp d : forall rs Rs K, SorOK rs Rs K -> forall c, bytes_ok (rest 
 Proof.
   induction rs as [|r rs IH]; intros Rs K Hs c Hb M; destruct Rs as [|R Rs]; simpl in Hs; try contradiction.
   - simpl in M. apply cat_inv in M. destruct M as [a [b [_ [Ha _]]]]. exfalso. eapply empty_inv; eauto.
-  - destruct Hs as [Hc [Ht [Hsd [Hq Hrest]]]].
+  - destruct Hs as [Hc [Ht [Hsd [[P [Hf Hq]] Hrest]]]].
     cbn [fa fold_right] in M. apply cat_inv in M. destruct M as [a [k [E [Ha Hk]]]]. apply alt_inv in Ha.
     destruct rs as [|r2 rs'].
     + (* last alternative *)
@@ -151,7 +156,7 @@ Proof.
       * destruct (Ht (req d) c Hb) as [v Ev].
         destruct (ev (req d) r c) as [[| |e] c1 e1| |] eqn:E1; simpl in Ev; try discriminate.
         -- destruct (Hsd (req d) c c1 e1 Hb E1) as [pre [Ep Mp]].
-           exists c1. split; [reflexivity|]. apply (Hq pre (rest c1)); [rewrite <- Ep; exact Hb | exact Mp|].
+           exists c1. split; [reflexivity|]. apply (Hq pre (rest c1)); [rewrite <- Ep; exact Hb | exact Mp | exact (Hf _ _ _ _ Hb E1) |].
            rewrite <- Ep, E. apply MCat; assumption.
         -- assert (c1 = c) by (eapply (fail_req (req d)); [reflexivity | exact E1]). subst c1.
            rewrite ov_prepend. apply (IH Rs K Hrest c Hb). rewrite E. apply MCat; assumption.
@@ -172,12 +177,12 @@ Proof.
 Qed.
 
 (* --- opt< r > (partial with one sub-rule) --- *)
-Lemma h_partial_cmp d r R K c : CmpE r R K -> TotE r -> SoundE r R ->
-  (forall w t, bytes_ok (w ++ t) -> matches R w -> matches K (w ++ t) -> matches K t) ->
+Lemma h_partial_cmp d r R K c (P : list byte -> Prop) : CmpE r R K -> TotE r -> SoundE r R -> FolE r P ->
+  (forall w t, bytes_ok (w ++ t) -> matches R w -> P t -> matches K (w ++ t) -> matches K t) ->
   bytes_ok (rest c) -> matches (Cat (Alt R Eps) K) (rest c) ->
   exists c', ov (h_partial ev d [r] c) = Some (Some c') /\ matches K (rest c').
 Proof.
-  intros Hc Ht Hs Hq Hb M. unfold h_partial. cbn [seq_all]. unfold bind.
+  intros Hc Ht Hs Hf Hq Hb M. unfold h_partial. cbn [seq_all]. unfold bind.
   apply cat_inv in M. destruct M as [a [k [E [Ha Hk]]]]. apply alt_inv in Ha. destruct Ha as [Ha|Ha].
   - assert (M1 : matches (Cat R K) (rest c)) by (rewrite E; apply MCat; assumption).
     destruct (Hc (req d) c Hb M1) as [c1 [E1 K1]]. apply ov_ok in E1. destruct E1 as [e1 E1]. rewrite E1. simpl.
@@ -186,7 +191,7 @@ Proof.
     destruct (Ht (req d) c Hb) as [v Ev].
     destruct (ev (req d) r c) as [[| |e] c1 e1| |] eqn:E1; simpl in Ev; try discriminate.
     + simpl. destruct (Hs (req d) c c1 e1 Hb E1) as [pre [Ep Mp]].
-      exists c1. split; [reflexivity|]. apply (Hq pre (rest c1)); [rewrite <- Ep; exact Hb | exact Mp | rewrite <- Ep, E; exact Hk].
+      exists c1. split; [reflexivity|]. apply (Hq pre (rest c1)); [rewrite <- Ep; exact Hb | exact Mp | exact (Hf _ _ _ _ Hb E1) | rewrite <- Ep, E; exact Hk].
     + assert (c1 = c) by (eapply (fail_req (req d)); [reflexivity | exact E1]). subst c1.
       exists c. split; [reflexivity | rewrite E; exact Hk].
 Qed.
@@ -237,20 +242,20 @@ Proof.
       right. exists x, w'. split; [reflexivity | split; [exact Hx | apply pow_opt_mono; exact Hw]].
 Qed.
 
-Fixpoint RepOptOK (r : rid) (R : re) (k : nat) (K : re) : Prop :=
+Fixpoint RepOptOK (r : rid) (R : re) (P : list byte -> Prop) (k : nat) (K : re) : Prop :=
   match k with
   | O => True
   | S k' => let L := Cat (pow k' (Alt R Eps)) K in
             CmpE r R L /\
-            (forall w t, bytes_ok (w ++ t) -> matches R w -> matches L (w ++ t) -> matches L t) /\
-            RepOptOK r R k' K
+            (forall w t, bytes_ok (w ++ t) -> matches R w -> P t -> matches L (w ++ t) -> matches L t) /\
+            RepOptOK r R P k' K
   end.
 
-Lemma repopt_loop_cmp d r R K : TotE r -> SoundE r R ->
-  forall k, RepOptOK r R k K -> forall c, bytes_ok (rest c) -> matches (Cat (pow k (Alt R Eps)) K) (rest c) ->
+Lemma repopt_loop_cmp d r R K (P : list byte -> Prop) : TotE r -> SoundE r R -> FolE r P ->
+  forall k, RepOptOK r R P k K -> forall c, bytes_ok (rest c) -> matches (Cat (pow k (Alt R Eps)) K) (rest c) ->
   exists c' evs b, repopt_loop ev k d r c = (Res Ok c' evs, b) /\ matches K (rest c') /\ bytes_ok (rest c').
 Proof.
-  intros Ht Hs. induction k as [|k IH]; intros Hr c Hb M; cbn [repopt_loop pow] in *.
+  intros Ht Hs Hf. induction k as [|k IH]; intros Hr c Hb M; cbn [repopt_loop pow] in *.
   - apply cat_inv in M. destruct M as [a [b [E [Ha Hbm]]]]. apply eps_inv in Ha. subst a.
     exists c, [], true. split; [reflexivity | split; [rewrite E; exact Hbm | exact Hb]].
   - destruct Hr as [Hc [Hq Hr]].
@@ -270,7 +275,7 @@ Proof.
       apply (Step c1 e1 E1 K1).
     + destruct (ev (req d) r c) as [[| |e] c1 e1| |] eqn:E1; simpl in Ev; try discriminate.
       * destruct (Hs (req d) c c1 e1 Hb E1) as [pre [Ep Mp]].
-        apply (Step c1 e1 eq_refl). apply (Hq pre (rest c1)); [rewrite <- Ep; exact Hb | exact Mp | rewrite <- Ep; exact M2].
+        apply (Step c1 e1 eq_refl). apply (Hq pre (rest c1)); [rewrite <- Ep; exact Hb | exact Mp | exact (Hf _ _ _ _ Hb E1) | rewrite <- Ep; exact M2].
       * assert (c1 = c) by (eapply (fail_req (req d)); [reflexivity | exact E1]). subst c1.
         exists c, e1, false. split; [reflexivity | split; [|exact Hb]].
         (* the input is in L_k and r failed: it cannot start with an R-block, so it is in K *)
@@ -305,7 +310,7 @@ Qed.
 
 Lemma h_rep_min_max_cmp mn mx d r cs K c : TotE r -> SoundE r (Chr cs) ->
   (forall b k, b < 256 -> cs_mem b cs = true -> ~ matches K (b :: k)) ->
-  RepOK r (Chr cs) mn (Cat (pow (mx - mn) (Alt (Chr cs) Eps)) K) -> RepOptOK r (Chr cs) (mx - mn) K ->
+  RepOK r (Chr cs) mn (Cat (pow (mx - mn) (Alt (Chr cs) Eps)) K) -> RepOptOK r (Chr cs) (fun _ => True) (mx - mn) K ->
   bytes_ok (rest c) -> matches (Cat (Cat (pow mn (Chr cs)) (pow (mx - mn) (Alt (Chr cs) Eps))) K) (rest c) ->
   exists c', ov (h_rep_min_max ev mn mx d r c) = Some (Some c') /\ matches K (rest c').
 Proof.
@@ -317,7 +322,7 @@ Proof.
   rewrite E1. simpl. rewrite ov_prepend.
   assert (Hb1 : bytes_ok (rest c1)).
   { pose proof (rep_loop_good PT PT_refl PT_trans ev Hgood mn (opt_ d) r eq_refl c) as Gd. rewrite E1 in Gd. simpl in Gd. eapply bytes_ok_adv; eauto. }
-  destruct (repopt_loop_cmp d r (Chr cs) K Ht Hs (mx - mn) H2 c1 Hb1 M1) as [c2 [evs [b [E2 [K2 B2]]]]]. rewrite E2.
+  destruct (repopt_loop_cmp d r (Chr cs) K (fun _ => True) Ht Hs (fun _ _ _ _ _ _ => I) (mx - mn) H2 c1 Hb1 M1) as [c2 [evs [b [E2 [K2 B2]]]]]. rewrite E2.
   destruct b; [|exists c2; split; [reflexivity | exact K2]].
   rewrite ov_prepend. exists c2. split; [|exact K2]. eapply not_at_class; eauto.
 Qed.
@@ -334,6 +339,70 @@ Proof.
   destruct b; [|eexists; reflexivity]. rewrite ov_prepend. unfold h_at, look.
   destruct (Ht (set_A (opt_ (opt_ d)) false) c2 B2) as [v2 Ev2].
   destruct (ev (set_A (opt_ (opt_ d)) false) r c2) as [[| |e] c3 e3| |]; simpl in Ev2; try discriminate; simpl; eexists; reflexivity.
+Qed.
+
+(* --- what can follow a successful match (used to sharpen the quotient conditions) --- *)
+Definition nofirst (cs : cset) (t : list byte) : Prop := match t with b :: _ => cs_mem b cs = false | [] => True end.
+Definition Any : re := Star (Chr [(0, 255)]).
+Lemma any_matches k : bytes_ok k -> matches Any k.
+Proof.
+  induction k as [|b k IH]; intros Hb; [constructor|]. inversion Hb as [|? ? H1 H2]; subst.
+  change (b :: k) with ([b] ++ k). apply MStarS; [|apply IH; exact H2].
+  constructor. unfold cs_mem, in_range. simpl. rewrite orb_false_r. apply andb_true_iff. split; apply N.leb_le; lia.
+Qed.
+Lemma fail_nofirst d r cs c : CmpE r (Chr cs) Any -> ov (ev d r c) = Some None -> bytes_ok (rest c) -> nofirst cs (rest c).
+Proof.
+  intros Hc Hf Hb. unfold nofirst. destruct (rest c) as [|b k] eqn:Er; [exact I|].
+  destruct (cs_mem b cs) eqn:Em; [|reflexivity]. exfalso.
+  assert (Hk : bytes_ok k) by (inversion Hb; assumption).
+  rewrite <- Er in Hb.
+  assert (M : matches (Cat (Chr cs) Any) (rest c)).
+  { rewrite Er. change (b :: k) with ([b] ++ k). apply MCat; [constructor; exact Em|]. apply any_matches. exact Hk. }
+  destruct (Hc d c Hb M) as [c' [E _]]. rewrite Hf in E. discriminate.
+Qed.
+
+Lemma repopt_false d r : forall k c c' evs, repopt_loop ev k d r c = (Res Ok c' evs, false) -> bytes_ok (rest c) ->
+  ov (ev (req d) r c') = Some None /\ bytes_ok (rest c').
+Proof.
+  induction k as [|k IH]; intros c c' evs H Hb; cbn [repopt_loop] in H; [inversion H|].
+  destruct (ev (req d) r c) as [[| |e] c1 e1| |] eqn:E1.
+  - destruct (repopt_loop ev k d r c1) as [x b] eqn:E2. inversion H; subst b.
+    destruct x as [[| |e] c2 e2| |]; simpl in H1; inversion H1; subst. apply (IH c1 c' e2 E2). eapply ok_bytes; eauto.
+  - inversion H; subst. assert (c' = c) by (eapply (fail_req (req d)); [reflexivity | exact E1]). subst c'.
+    rewrite E1. split; [reflexivity | exact Hb].
+  - inversion H.
+  - inversion H.
+  - inversion H.
+Qed.
+
+Lemma h_rep_min_max_fol mn mx d r cs c c' evs : TotE r -> CmpE r (Chr cs) Any ->
+  h_rep_min_max ev mn mx d r c = Res Ok c' evs -> bytes_ok (rest c) -> nofirst cs (rest c').
+Proof.
+  intros Ht Hc H Hb. unfold h_rep_min_max in H. apply guard_ok in H. apply bind_ok in H.
+  destruct H as [c1 [e1 [e2 [H1 H2]]]].
+  assert (Hb1 : bytes_ok (rest c1)).
+  { pose proof (rep_loop_good PT PT_refl PT_trans ev Hgood mn (opt_ d) r eq_refl c) as Gd. rewrite H1 in Gd. simpl in Gd. eapply bytes_ok_adv; eauto. }
+  destruct (repopt_loop ev (mx - mn) d r c1) as [x b] eqn:E2.
+  destruct x as [[| |e] c2 ev2| |]; try (destruct b; discriminate).
+  destruct b.
+  - (* ran to completion: not_at< r > succeeded at c2 *)
+    destruct (repopt_loop_tot d r Ht (mx - mn) c1 Hb1) as [c2' [evs' [b' [E3 B3]]]]. rewrite E2 in E3. inversion E3; subst c2' evs' b'.
+    unfold h_at, look in H2.
+    destruct (ev (set_A (opt_ (opt_ d)) false) r c2) as [[| |e] c3 e3| |] eqn:E4; simpl in H2; inversion H2; subst.
+    eapply fail_nofirst; eauto. rewrite E4. reflexivity.
+  - inversion H2; subst. destruct (repopt_false d r _ _ _ _ E2 Hb1) as [F1 F2]. eapply fail_nofirst; eauto.
+Qed.
+
+Fixpoint lastopt (rs : list rid) : option rid :=
+  match rs with [] => None | [r] => Some r | _ :: rs' => lastopt rs' end.
+Lemma seq_all_last d : forall rs c c' evs rl, seq_all ev d rs c = Res Ok c' evs -> bytes_ok (rest c) -> lastopt rs = Some rl ->
+  exists cp e, ev d rl cp = Res Ok c' e /\ bytes_ok (rest cp).
+Proof.
+  induction rs as [|r rs IH]; intros c c' evs rl H Hb Hl; [discriminate|].
+  cbn [seq_all] in H. apply bind_ok in H. destruct H as [c1 [e1 [e2 [H1 H2]]]].
+  destruct rs as [|r2 rs'].
+  - simpl in Hl. inversion Hl; subst rl. simpl in H2. inversion H2; subst. eauto.
+  - apply (IH c1 c' e2 rl H2); [eapply ok_bytes; eauto | exact Hl].
 Qed.
 End Helpers.
 
@@ -420,4 +489,345 @@ Proof.
   - (* opaque *) inversion Ha; subst. simpl in He. inversion He; subst. split; [eexists; reflexivity|].
     intros M. apply cat_inv in M. destruct M as [a [k [_ [Ha' _]]]]. exfalso. eapply empty_inv; eauto.
 Qed.
+
+(* ---------- the computable certificate ---------- *)
+Definition CF : nat := 1000 * 1000.
+
+(* the byte class that cannot start the rest after node r succeeded (None = no information) *)
+Fixpoint nfol (n : nat) (r : rid) : option cset :=
+  match n with
+  | O => None
+  | S n' =>
+    match nth_error G r with
+    | None => None
+    | Some nd =>
+      match MX r with
+      | Some _ => Some [(48, 57)]
+      | None =>
+        match nhead nd, nsubs nd with
+        | HRepMinMax _ _, [r1] => match re_of G MX n' r1 with Some (Chr cs, _) => Some cs | _ => None end
+        | HSeq, rs => match rs with _ :: _ :: _ => match lastopt rs with Some rl => nfol n' rl | None => None end | _ => None end
+        | _, _ => None
+        end
+      end
+    end
+  end.
+Definition nf_pred (o : option cset) (t : list byte) : Prop := match o with Some cs => nofirst cs t | None => True end.
+Definition Kx (o : option cset) (K : re) : re := match o with Some cs => Alt K (Cat (Chr cs) Any) | None => K end.
+Lemma kx_sem o K t : nf_pred o t -> matches (Kx o K) t -> matches K t.
+Proof.
+  destruct o as [cs|]; simpl; [|auto]. intros Hn M. apply alt_inv in M. destruct M as [M|M]; [exact M|].
+  exfalso. apply cat_inv in M. destruct M as [a [k [-> [Ha _]]]]. apply chr_inv in Ha. destruct Ha as [b [-> Hm]].
+  simpl in Hn. congruence.
+Qed.
+
+Fixpoint cc_seq (sub : rid -> re -> bool) (subre : rid -> option (re * bool)) (rs : list rid) (K : re) : bool :=
+  match rs with
+  | [] => true
+  | r :: rs' => match subs_re subre rs' with
+                | Some l => sub r (Cat (fr (map fst l)) K) && cc_seq sub subre rs' K
+                | None => false
+                end
+  end.
+Fixpoint cc_sor (sub : rid -> re -> bool) (subre : rid -> option (re * bool)) (fol : rid -> option cset) (rs : list rid) (K : re) : bool :=
+  match rs with
+  | [] => true
+  | r :: rs' => match subre r, subs_re subre rs' with
+                | Some (R, _), Some l => sub r K && quot_auto CF R (Cat (fa (map fst l)) K) (Kx (fol r) K) && cc_sor sub subre fol rs' K
+                | _, _ => false
+                end
+  end.
+Fixpoint cc_rep (sub : rid -> re -> bool) (r : rid) (R : re) (k : nat) (K : re) : bool :=
+  match k with O => true | S k' => sub r (Cat (pow k' R) K) && cc_rep sub r R k' K end.
+Fixpoint cc_repopt (sub : rid -> re -> bool) (o : option cset) (r : rid) (R : re) (k : nat) (K : re) : bool :=
+  match k with
+  | O => true
+  | S k' => let L := Cat (pow k' (Alt R Eps)) K in sub r L && quot_auto CF R L (Kx o L) && cc_repopt sub o r R k' K
+  end.
+
+Fixpoint cc (n : nat) (r : rid) (K : re) : bool :=
+  match n with
+  | O => false
+  | S n' =>
+    match nth_error G r with
+    | None => false
+    | Some nd =>
+      match MX r with
+      | Some (w, mx) => Nat.eqb w 8 && (mx =? 255) && noprefix [(48, 57)] K
+      | None =>
+        match atom_re (nhead nd) with
+        | Some (Some _) => match nhead nd with HEof => incl_auto CF K Eps | _ => true end
+        | Some None => false
+        | None =>
+          match nhead nd, nsubs nd with
+          | HSeq, rs => cc_seq (cc n') (re_of G MX n') rs K
+          | HSor, rs => cc_sor (cc n') (re_of G MX n') (nfol n') rs K
+          | HPartial, [r1] => match re_of G MX n' r1 with
+                              | Some (R, _) => cc n' r1 K && quot_auto CF R K (Kx (nfol n' r1) K)
+                              | None => false end
+          | HRep (S k), [r1] => match re_of G MX n' r1 with Some (R, _) => cc_rep (cc n') r1 R (S k) K | None => false end
+          | HRepOpt (S k), [r1] => match re_of G MX n' r1 with Some (R, _) => cc_repopt (cc n') (nfol n' r1) r1 R (S k) K | None => false end
+          | HRepMinMax (S mn0) mx, [r1] =>
+              let mn := S mn0 in
+              match re_of G MX n' r1 with
+              | Some (Chr cs, _) => noprefix cs K && cc n' r1 Any
+                                    && cc_rep (cc n') r1 (Chr cs) mn (Cat (pow (mx - mn) (Alt (Chr cs) Eps)) K)
+                                    && cc_repopt (cc n') None r1 (Chr cs) (mx - mn) K
+              | _ => false end
+          | _, _ => false
+          end
+        end
+      end
+    end
+  end.
+
+Lemma quot_sem o R L K : quot_auto CF R L (Kx o K) = true ->
+  forall w t, bytes_ok (w ++ t) -> matches R w -> nf_pred o t -> matches L (w ++ t) -> matches K t.
+Proof.
+  intros H w t Hb Mw Hn Ml. apply (kx_sem o K t Hn).
+  exact (quot_auto_sound CF R L (Kx o K) H w t (bytes_ok_app_l _ _ Hb) (bytes_ok_app_r _ _ Hb) Mw Ml).
+Qed.
+
+Lemma cat_cong A A' K s : (forall w, matches A w <-> matches A' w) -> matches (Cat A K) s -> matches (Cat A' K) s.
+Proof. intros H M. apply cat_inv in M. destruct M as [a [k [-> [Ha Hk]]]]. apply MCat; [apply H; exact Ha | exact Hk]. Qed.
+
+Definition FolOK (n : nat) (r : rid) : Prop :=
+  forall d c c' evs, bytes_ok (rest c) -> evalx G C0 MX n d r c = Res Ok c' evs -> nf_pred (nfol n r) (rest c').
+
+Section Step.
+Variable n : nat.
+Let ev := evalx G C0 MX n.
+Hypothesis IH : forall r K R nf, cc n r K = true -> re_of G MX n r = Some (R, nf) -> Tot n r /\ CmpR n r R K /\ FolOK n r.
+
+Lemma Hgd : forall d r c, goodT (dM d) c (ev d r c).
+Proof. intros. apply evalx_good. exact HG. Qed.
+Lemma sound_sub r R nf : re_of G MX n r = Some (R, nf) -> SoundE ev r R.
+Proof.
+  intros Hr d c c' evs Hb E.
+  pose proof (evalx_inv G C0 MX HG C0_acts C0_rof n n d r c R nf Hr Hb) as K. unfold ev in E. rewrite E in K. exact K.
+Qed.
+
+Lemma cc_seq_ok K : forall rs l, subs_re (re_of G MX n) rs = Some l -> cc_seq (cc n) (re_of G MX n) rs K = true ->
+  SeqOK ev rs (map fst l) K /\ Forall (TotE ev) rs.
+Proof.
+  induction rs as [|r rs IHrs]; intros l Hs Hc; simpl in Hs.
+  - inversion Hs; subst. simpl. split; [exact I | constructor].
+  - destruct (re_of G MX n r) as [[R nf]|] eqn:Er; [|discriminate].
+    destruct (subs_re (re_of G MX n) rs) as [l'|] eqn:El; [|discriminate]. inversion Hs; subst. clear Hs.
+    cbn [cc_seq] in Hc. rewrite El in Hc. apply andb_true_iff in Hc. destruct Hc as [C1 C2].
+    destruct (IH r _ R nf C1 Er) as [T1 [P1 _]]. destruct (IHrs l' eq_refl C2) as [S2 T2].
+    split; [simpl; split; [exact P1 | exact S2] | constructor; [exact T1 | exact T2]].
+Qed.
+
+Lemma cc_sor_ok K : forall rs l, subs_re (re_of G MX n) rs = Some l -> cc_sor (cc n) (re_of G MX n) (nfol n) rs K = true ->
+  SorOK ev rs (map fst l) K /\ Forall (TotE ev) rs.
+Proof.
+  induction rs as [|r rs IHrs]; intros l Hs Hc; simpl in Hs.
+  - inversion Hs; subst. simpl. split; [exact I | constructor].
+  - destruct (re_of G MX n r) as [[R nf]|] eqn:Er; [|discriminate].
+    destruct (subs_re (re_of G MX n) rs) as [l'|] eqn:El; [|discriminate]. inversion Hs; subst. clear Hs.
+    cbn [cc_sor] in Hc. rewrite Er, El in Hc. rewrite !andb_true_iff in Hc. destruct Hc as [[C1 Q1] C2].
+    destruct (IH r _ R nf C1 Er) as [T1 [P1 F1]]. destruct (IHrs l' eq_refl C2) as [S2 T2].
+    split; [|constructor; [exact T1 | exact T2]].
+    simpl. split; [exact P1|]. split; [exact T1|]. split; [eapply sound_sub; eauto|]. split; [|exact S2].
+    exists (nf_pred (nfol n r)). split; [exact F1|]. apply (quot_sem (nfol n r)). exact Q1.
+Qed.
+
+Lemma cc_rep_ok r R nf K : re_of G MX n r = Some (R, nf) -> forall k, cc_rep (cc n) r R k K = true -> RepOK ev r R k K.
+Proof.
+  intros Er. induction k as [|k IHk]; intros Hc; simpl; [exact I|].
+  cbn [cc_rep] in Hc. apply andb_true_iff in Hc. destruct Hc as [C1 C2].
+  split; [exact (proj1 (proj2 (IH r _ R nf C1 Er))) | apply IHk; exact C2].
+Qed.
+Lemma cc_repopt_ok o r R nf K : re_of G MX n r = Some (R, nf) -> forall k, cc_repopt (cc n) o r R k K = true -> RepOptOK ev r R (nf_pred o) k K.
+Proof.
+  intros Er. induction k as [|k IHk]; intros Hc; simpl; [exact I|].
+  cbn [cc_repopt] in Hc. rewrite !andb_true_iff in Hc. destruct Hc as [[C1 Q1] C2].
+  split; [exact (proj1 (proj2 (IH r _ R nf C1 Er)))|]. split; [apply (quot_sem o); exact Q1 | apply IHk; exact C2].
+Qed.
+End Step.
+
+Lemma ov_seq1 (ev : dyn -> rid -> cursor -> result) d r c : ov (seq_all ev d [r] c) = ov (ev d r c).
+Proof. cbn [seq_all]. unfold bind. destruct (ev d r c) as [[| |e] c1 e1| |]; reflexivity. Qed.
+
+Lemma node_ok n d r c nd c' evs : nth_error G r = Some nd -> evalx G C0 MX (S n) d r c = Res Ok c' evs ->
+  exists evs', (match MX r with
+       | Some (w, mx) => fun (_ : dyn) (c0 : cursor) => mx_result (maximum_rule w mx c0 tt)
+       | None => eval_head C0 (evalx G C0 MX n) n r (nhead nd) (nsubs nd)
+       end) d c = Res Ok c' evs'.
+Proof.
+  intros En H. pose proof (ov_node n d r c nd En) as Q. rewrite H in Q. simpl in Q. symmetry in Q. apply ov_ok in Q. exact Q.
+Qed.
+
+Lemma mx_fol c c' evs : bytes_ok (rest c) -> mx_result (maximum_rule 8 255 c tt) = Res Ok c' evs -> nofirst [(48, 57)] (rest c').
+Proof.
+  intros Hb H. unfold maximum_rule in H.
+  assert (Hw : (4 <= 8)%nat) by lia. assert (HM : 255 < pow2 8) by (vm_compute; reflexivity).
+  pose proof (IntegerFacts.match_nothrow_char 8 255 c Hw HM Hb) as K.
+  destruct (lex_unsigned (rest c)) as [k|] eqn:El.
+  - cbv zeta in K. destruct K as [K1 K2]. change (Z.of_N 255) with 255%Z in *.
+    destruct (Z.le_gt_cases (unsigned_value (firstn k (rest c))) 255) as [L|L].
+    + rewrite (K1 L) in H. simpl in H. inversion H; subst. simpl.
+      apply IntegerFacts.lex_unsigned_iff in El. destruct El as [ds [r0 [Es [Ek [_ Hnd]]]]].
+      rewrite Es. subst k. rewrite skipn_app, skipn_all, Nat.sub_diag. simpl.
+      unfold nofirst. destruct r0 as [|b r0']; [exact I|]. simpl in Hnd. unfold isdigit in Hnd.
+      unfold cs_mem, in_range. simpl. destruct (N.leb_spec 48 b); [|reflexivity]. destruct (N.leb_spec b 57); [exfalso; apply Hnd; lia | reflexivity].
+    + destruct (K2 L) as [st' Hs]. rewrite Hs in H. simpl in H. discriminate.
+  - rewrite K in H. simpl in H. discriminate.
+Qed.
+
+Lemma cc_seq_last n K : forall rs l rl, subs_re (re_of G MX n) rs = Some l -> cc_seq (cc n) (re_of G MX n) rs K = true ->
+  lastopt rs = Some rl -> exists Kl Rl nfl, cc n rl Kl = true /\ re_of G MX n rl = Some (Rl, nfl).
+Proof.
+  induction rs as [|a rs0 IHr]; intros l rl El Hc Elast; [discriminate|].
+  simpl in El. destruct (re_of G MX n a) as [[Ra nfa]|] eqn:Era; [|discriminate].
+  destruct (subs_re (re_of G MX n) rs0) as [l'|] eqn:El'; [|discriminate].
+  cbn [cc_seq] in Hc. rewrite El' in Hc. apply andb_true_iff in Hc. destruct Hc as [C1 C2].
+  destruct rs0 as [|b rs1].
+  - simpl in Elast. inversion Elast; subst. eauto.
+  - apply (IHr l' rl eq_refl C2). exact Elast.
+Qed.
+
+Theorem cc_sound : forall n r K R nf, cc n r K = true -> re_of G MX n r = Some (R, nf) -> Tot n r /\ CmpR n r R K /\ FolOK n r.
+Proof.
+  induction n as [|n IH]; intros r K R nf Hc Hr; [discriminate|].
+  cbn [cc re_of] in Hc, Hr. destruct (nth_error G r) as [nd|] eqn:En; [|discriminate].
+  assert (Split : (Tot (S n) r /\ CmpR (S n) r R K) -> FolOK (S n) r -> Tot (S n) r /\ CmpR (S n) r R K /\ FolOK (S n) r) by tauto.
+  unfold re_step in Hr. destruct (MX r) as [[w mx]|] eqn:Em.
+  - (* maximum_rule leaf *)
+    rewrite !andb_true_iff in Hc. destruct Hc as [[E1 E2] Hn]. apply Nat.eqb_eq in E1. apply N.eqb_eq in E2. subst w mx.
+    simpl in Hr. inversion Hr; subst R nf.
+    apply Split.
+    + unfold Tot, CmpR. setoid_rewrite (fun d c => ov_node n d r c nd En). rewrite Em.
+      split; intros d c Hb; [apply (proj1 (mx_cmp c K Hb (noprefix_sound _ _ Hn))) | apply (proj2 (mx_cmp c K Hb (noprefix_sound _ _ Hn)))].
+    + intros d c c' evs Hb H. destruct (node_ok n d r c nd c' evs En H) as [e2 H2]. rewrite Em in H2.
+      cbn [nfol]. rewrite En, Em. simpl. eapply mx_fol; eauto.
+  - destruct (atom_re (nhead nd)) as [[y|]|] eqn:Ea.
+    + (* atoms *)
+      inversion Hr; subst y.
+      assert (Heof : nhead nd = HEof -> forall k, bytes_ok k -> matches K k -> k = []).
+      { intros Eh k Hk Mk. rewrite Eh in Hc. pose proof (incl_auto_sound CF K Eps Hc k Hk Mk) as Me. apply eps_inv in Me. exact Me. }
+      assert (Q : forall d c, bytes_ok (rest c) ->
+                 (exists v, ov (eval_head C0 (evalx G C0 MX n) n r (nhead nd) (nsubs nd) d c) = Some v) /\
+                 (matches (Cat R K) (rest c) -> exists c', ov (eval_head C0 (evalx G C0 MX n) n r (nhead nd) (nsubs nd) d c) = Some (Some c') /\ matches K (rest c'))).
+      { intros d c Hb. destruct (atom_is_atom (nhead nd) (ceol C0) c (R, nf) Ea) as [x Hx].
+        unfold eval_head. rewrite Hx. eapply atom_cmp; eauto. }
+      apply Split.
+      * unfold Tot, CmpR. setoid_rewrite (fun d c => ov_node n d r c nd En). rewrite Em.
+        split; intros d c Hb; [apply (proj1 (Q d c Hb)) | apply (proj2 (Q d c Hb))].
+      * intros d c c' evs Hb H. cbn [nfol]. rewrite En, Em.
+        destruct (nhead nd); cbn [atom_re] in Ea; try discriminate; try exact I; try (destruct found; discriminate).
+    + discriminate.
+    + (* combinators *)
+      pose proof (Hgd n) as Hgood.
+      assert (IH' : forall r0 K0 R0 nf0, cc n r0 K0 = true -> re_of G MX n r0 = Some (R0, nf0) -> Tot n r0 /\ CmpR n r0 R0 K0) by (intros; edestruct IH as [A [B _]]; eauto).
+      destruct (nhead nd) eqn:Eh; cbn [atom_re] in Ea; try discriminate; try (destruct found; discriminate); try discriminate.
+      * (* seq *)
+        destruct (subs_re (re_of G MX n) (nsubs nd)) as [l|] eqn:El; [|discriminate]. simpl in Hr. inversion Hr; subst R nf.
+        destruct (cc_seq_ok n IH K (nsubs nd) l El Hc) as [S1 T1].
+        assert (Q : forall d c, ov (h_seq (evalx G C0 MX n) d (nsubs nd) c) = ov (seq_all (evalx G C0 MX n) (match nsubs nd with [_] => d | _ => opt_ d end) (nsubs nd) c)).
+        { intros d c. unfold h_seq. destruct (nsubs nd) as [|r1 [|r2 rs]]; [apply ov_guard | symmetry; apply ov_seq1 | apply ov_guard]. }
+        apply Split.
+        -- unfold Tot, CmpR. setoid_rewrite (fun d c => ov_node n d r c nd En). rewrite Em. unfold eval_head. rewrite Eh. cbn [eval_atom].
+           split; intros d c Hb; rewrite Q.
+           ++ apply (seq_all_tot (evalx G C0 MX n) Hgood); assumption.
+           ++ intros M. apply (seq_all_cmp (evalx G C0 MX n) Hgood _ (nsubs nd) (map fst l) K S1 c Hb).
+              eapply cat_cong; [|exact M]. intros w0. apply cat_list_iff.
+        -- intros d c c' evs Hb H. destruct (node_ok n d r c nd c' evs En H) as [e2 H2]. rewrite Em in H2.
+           cbn [nfol]. rewrite En, Em, Eh.
+           destruct (nsubs nd) as [|r1 [|r2 rs]] eqn:Ens; try exact I.
+           destruct (lastopt (r1 :: r2 :: rs)) as [rl|] eqn:Elast; [|exact I].
+           unfold eval_head in H2. rewrite Eh in H2. cbn [eval_atom] in H2. unfold h_seq in H2. apply guard_ok in H2.
+           destruct (seq_all_last (evalx G C0 MX n) Hgood (opt_ d) (r1 :: r2 :: rs) c c' e2 rl H2 Hb Elast) as [cp [e3 [H3 Hbp]]].
+           (* the last sub-rule has a certificate: it occurs in the list checked by cc_seq *)
+           pose proof (cc_seq_last n K _ l rl El Hc Elast) as Hin.
+           destruct Hin as [Kl [Rl [nfl [Cl Rel]]]]. destruct (IH rl Kl Rl nfl Cl Rel) as [_ [_ Fl]].
+           exact (Fl (opt_ d) cp c' e3 Hbp H3).
+      * (* sor *)
+        destruct (subs_re (re_of G MX n) (nsubs nd)) as [l|] eqn:El; [|discriminate]. simpl in Hr. inversion Hr; subst R nf.
+        destruct (cc_sor_ok n IH K (nsubs nd) l El Hc) as [S1 T1].
+        apply Split.
+        -- unfold Tot, CmpR. setoid_rewrite (fun d c => ov_node n d r c nd En). rewrite Em. unfold eval_head. rewrite Eh. cbn [eval_atom].
+           split; intros d c Hb.
+           ++ apply (sor_any_tot (evalx G C0 MX n) Hgood); assumption.
+           ++ intros M. apply (sor_any_cmp (evalx G C0 MX n) Hgood d (nsubs nd) (map fst l) K S1 c Hb).
+              eapply cat_cong; [|exact M]. intros w0. apply alt_list_iff.
+        -- intros d c c' evs Hb H. cbn [nfol]. rewrite En, Em, Eh. exact I.
+      * (* partial *)
+        destruct (nsubs nd) as [|r1 [|? ?]] eqn:Ens; try discriminate.
+        destruct (re_of G MX n r1) as [[R1 nf1]|] eqn:E1; [|discriminate]. simpl in Hr. inversion Hr; subst R nf.
+        apply andb_true_iff in Hc. destruct Hc as [C1 Q1]. destruct (IH r1 K R1 nf1 C1 E1) as [T1 [P1 F1]].
+        apply Split.
+        -- unfold Tot, CmpR. setoid_rewrite (fun d c => ov_node n d r c nd En). rewrite Em. unfold eval_head. rewrite Eh, Ens. cbn [eval_atom].
+           split; intros d c Hb.
+           ++ apply h_partial_tot; assumption.
+           ++ intros M. apply (h_partial_cmp (evalx G C0 MX n) Hgood d r1 R1 K c (nf_pred (nfol n r1)) P1 T1 (sound_sub n r1 R1 nf1 E1) F1 (quot_sem _ _ _ _ Q1) Hb M).
+        -- intros d c c' evs Hb H. cbn [nfol]. rewrite En, Em, Eh. exact I.
+      * (* rep *)
+        destruct n0 as [|k0]; [discriminate|].
+        destruct (nsubs nd) as [|r1 [|? ?]] eqn:Ens; try discriminate.
+        destruct (re_of G MX n r1) as [[R1 nf1]|] eqn:E1; [|discriminate]. simpl in Hr. inversion Hr; subst R nf.
+        pose proof (cc_rep_ok n IH r1 R1 nf1 K E1 _ Hc) as R1ok.
+        assert (T1 : TotE (evalx G C0 MX n) r1).
+        { cbn [cc_rep] in Hc. apply andb_true_iff in Hc. destruct Hc as [C1 _]. exact (proj1 (IH' r1 _ R1 nf1 C1 E1)). }
+        apply Split.
+        -- unfold Tot, CmpR. setoid_rewrite (fun d c => ov_node n d r c nd En). rewrite Em. unfold eval_head. rewrite Eh, Ens. cbn [eval_atom].
+           split; intros d c Hb; unfold h_rep; rewrite ov_guard.
+           ++ apply (rep_loop_tot (evalx G C0 MX n) Hgood); assumption.
+           ++ intros M. apply (rep_loop_cmp (evalx G C0 MX n) Hgood (opt_ d) r1 R1 K _ R1ok c Hb M).
+        -- intros d c c' evs Hb H. cbn [nfol]. rewrite En, Em, Eh. exact I.
+      * (* rep_min_max *)
+        destruct mn as [|mn0]; [discriminate|].
+        destruct (nsubs nd) as [|r1 [|? ?]] eqn:Ens; try discriminate.
+        destruct (re_of G MX n r1) as [[R1 nf1]|] eqn:E1; [|discriminate]. destruct R1; try discriminate.
+        simpl in Hr. inversion Hr; subst R nf.
+        rewrite !andb_true_iff in Hc. destruct Hc as [[[Hn Ca] C1] C2].
+        pose proof (cc_rep_ok n IH r1 (Chr cs) nf1 _ E1 _ C1) as Rok.
+        pose proof (cc_repopt_ok n IH None r1 (Chr cs) nf1 K E1 _ C2) as Ook.
+        destruct (IH' r1 Any (Chr cs) nf1 Ca E1) as [T1 Pa].
+        apply Split.
+        -- unfold Tot, CmpR. setoid_rewrite (fun d c => ov_node n d r c nd En). rewrite Em. unfold eval_head. rewrite Eh, Ens. cbn [eval_atom].
+           split; intros d c Hb.
+           ++ apply (h_rep_min_max_tot (evalx G C0 MX n) Hgood); assumption.
+           ++ intros M. apply (h_rep_min_max_cmp (evalx G C0 MX n) Hgood (S mn0) mx d r1 cs K c T1 (sound_sub n r1 (Chr cs) nf1 E1) (noprefix_sound _ _ Hn) Rok Ook Hb M).
+        -- intros d c c' evs Hb H. destruct (node_ok n d r c nd c' evs En H) as [e2 H2]. rewrite Em in H2.
+           cbn [nfol]. rewrite En, Em, Eh, Ens, E1. simpl.
+           unfold eval_head in H2. rewrite Eh, Ens in H2. cbn [eval_atom] in H2.
+           eapply (h_rep_min_max_fol (evalx G C0 MX n) Hgood); eauto.
+      * (* rep_opt *)
+        destruct mx as [|k0]; [discriminate|].
+        destruct (nsubs nd) as [|r1 [|? ?]] eqn:Ens; try discriminate.
+        destruct (re_of G MX n r1) as [[R1 nf1]|] eqn:E1; [|discriminate]. simpl in Hr. inversion Hr; subst R nf.
+        pose proof (cc_repopt_ok n IH (nfol n r1) r1 R1 nf1 K E1 _ Hc) as Ook.
+        assert (TF : TotE (evalx G C0 MX n) r1 /\ FolE (evalx G C0 MX n) r1 (nf_pred (nfol n r1))).
+        { cbn [cc_repopt] in Hc. rewrite !andb_true_iff in Hc. destruct Hc as [[C3 _] _]. destruct (IH r1 _ R1 nf1 C3 E1) as [A [_ B]]. split; assumption. }
+        destruct TF as [T1 F1].
+        apply Split.
+        -- unfold Tot, CmpR. setoid_rewrite (fun d c => ov_node n d r c nd En). rewrite Em. unfold eval_head. rewrite Eh, Ens. cbn [eval_atom].
+           split; intros d c Hb; unfold h_rep_opt.
+           ++ destruct (repopt_loop_tot (evalx G C0 MX n) Hgood d r1 T1 (S k0) c Hb) as [c' [evs [b [E2 _]]]]. rewrite E2. eexists; reflexivity.
+           ++ intros M. destruct (repopt_loop_cmp (evalx G C0 MX n) Hgood d r1 R1 K (nf_pred (nfol n r1)) T1 (sound_sub n r1 R1 nf1 E1) F1 (S k0) Ook c Hb M) as [c' [evs [b [E2 [K2 _]]]]].
+              rewrite E2. exists c'. split; [reflexivity | exact K2].
+        -- intros d c c' evs Hb H. cbn [nfol]. rewrite En, Em, Eh. exact I.
+Qed.
 End Complete.
+
+(* ---------- the generated URI table ---------- *)
+Definition complete_cert (t : top) : bool :=
+  match uri_re t with
+  | Some (R, _) => incl_auto CF (rfc t) R && cc uri_table uri_mx uri_re_depth (uri_root t) Eps
+  | None => false
+  end.
+
+Lemma complete_of_cert t : complete_cert t = true ->
+  forall s, bytes_ok s -> matches (rfc t) s -> uri_accepts t s.
+Proof.
+  unfold complete_cert, uri_re. intros Hc s Hs M.
+  destruct (re_of uri_table uri_mx uri_re_depth (uri_root t)) as [[R nf]|] eqn:ER; [|discriminate].
+  apply andb_true_iff in Hc. destruct Hc as [Hi Hcc].
+  destruct (cc_sound uri_table uri_mx uri_table_wf uri_re_depth (uri_root t) Eps R nf Hcc ER) as [_ [Cm _]].
+  assert (M2 : matches (Cat R Eps) (rest (mkcur s pos0))).
+  { simpl. rewrite <- (app_nil_r s). apply MCat; [|constructor]. eapply incl_auto_sound; eauto. }
+  destruct (Cm d0 (mkcur s pos0) Hs M2) as [c' [E _]]. apply ov_ok in E. destruct E as [evs E].
+  exists uri_re_depth, c', evs. exact E.
+Qed.
